@@ -122,7 +122,10 @@ def _res_cases(tier):
             for mode, native, factors in (("coarser", (4, 2), (2, 2)), ("coarser", (2, 6), (1, 3)), ("finer", (2, 1), (2, 3)), ("finer", (1, 2), (3, 1)),
                                           # larger integer factors on axes long enough to have interior voxels (voxel-corner, not voxel-centre, parent convention)
                                           ("finer", (4, 3), (3, 4)), ("finer", (3, 5), (5, 3)),
-                                          ("mixed", (2, 2), (2, 1)), ("mixed", (4, 2), (2, 1)), ("mixed-t", (2, 4), (1, 2))):
+                                          ("mixed", (2, 2), (2, 1)), ("mixed", (4, 2), (2, 1)), ("mixed-t", (2, 4), (1, 2)),
+                                          # coarser by 3 along one axis while finer along the other: OpenCV's INTER_AREA is NOT an area interpolation when an axis is
+                                          # enlarged (fixed defect, see known_findings.txt: integrate() now coarsens first, then refines)
+                                          ("mixed", (6, 2), (3, 1)), ("mixed-t", (2, 6), (1, 3))):
                 if payload == "vector-series" and "array" in geom or (payload == "vector-series" and geom == "extporous-ia"):
                     pass
                 out.append(dict(geom=geom, payload=payload, mode=mode, native=native, factors=factors))
@@ -274,3 +277,10 @@ def c03_history_rejected(ctx, dim, geom, foreign):
     got = used.integrate(x)
     ctx.ensure(f"after a {'refused' if refused else 'served'} call at {foreign} resolution: integrate(native data) equals a fresh object's result", eq(got, fresh.integrate(x)))
     ctx.ensure("... and is the specified weighted sum", eq(got, spec_integral(xarr, w, vol, dim)))
+
+
+@ob("C03.dep_resize", kind="B", samples=(2, 6), funcs=[], tol=2e-7, cite="(validation of an assumed dependency contract)",
+    note="the cv2.resize(INTER_AREA) stub used by C03.sum / resolution / history against the installed OpenCV: random integer ratios per axis, 1-3 channels")
+def c03_dep_resize(ctx):
+    from contracts import deps_validation as dv
+    dv.dep_resize(ctx)
